@@ -239,6 +239,8 @@ def types_are_comparable(left_type, right_type, operator):
         "BOOLEAN": {
             "EQUALS": "BOOLEAN",
             "DOES_NOT_EQUAL": "BOOLEAN",
+            "ONE_OF": "BOOLEAN_LIST",
+            "NONE_OF": "BOOLEAN_LIST",
         },
         "STRING_LIST": {
             "CONTAINS": "STRING",
@@ -265,8 +267,10 @@ def types_are_comparable(left_type, right_type, operator):
             "DOES_NOT_CONTAIN": "BOOLEAN",
             "EQUALS": "BOOLEAN_LIST",
             "DOES_NOT_EQUAL": "BOOLEAN_LIST",
+            "CONTAINS_ANY_OF": "BOOLEAN_LIST",
             "IS_SUBSET_OF": "BOOLEAN_LIST",
             "IS_SUPERSET_OF": "BOOLEAN_LIST",
+            "CONTAINS_NONE_OF": "BOOLEAN_LIST",
         },
         "OBJECT": {
             "EQUALS": "OBJECT",
